@@ -8,7 +8,6 @@ import (
 	"errors"
 	"fmt"
 	"io"
-	"net/http"
 	"net/url"
 	"strings"
 	"time"
@@ -20,6 +19,7 @@ import (
 	"github.com/aws/aws-sdk-go-v2/service/s3"
 	"github.com/aws/aws-sdk-go-v2/service/s3/types"
 	"github.com/aws/smithy-go"
+	smithyhttp "github.com/aws/smithy-go/transport/http"
 	"github.com/jdillenkofer/pithos/internal/lifecycle"
 	"github.com/jdillenkofer/pithos/internal/sliceutils"
 	"github.com/jdillenkofer/pithos/internal/storage"
@@ -531,17 +531,15 @@ func storageClassFromAWS[T ~string](storageClass T) *string {
 	return &value
 }
 
-// parseExpires parses the stored raw Expires header value into a time.Time for
-// the AWS SDK, which only accepts a parsed timestamp on requests. Unparseable
-// values are dropped.
-func parseExpires(expires *string) *time.Time {
-	if expires == nil {
-		return nil
+// withRawExpires sends the stored raw Expires header value verbatim. The AWS
+// SDK inputs only accept a parsed timestamp, which would be re-serialised (and
+// an unparseable value dropped), so the header is set on the built request.
+func withRawExpires(expires *string) func(*s3.Options) {
+	return func(o *s3.Options) {
+		if expires != nil {
+			o.APIOptions = append(o.APIOptions, smithyhttp.SetHeaderValue("Expires", *expires))
+		}
 	}
-	if t, err := http.ParseTime(*expires); err == nil {
-		return &t
-	}
-	return nil
 }
 
 func (rs *s3ClientStorage) PutObject(ctx context.Context, bucketName storage.BucketName, key storage.ObjectKey, contentType *string, reader io.Reader, checksumInput *storage.ChecksumInput, opts *storage.PutObjectOptions) (*storage.PutObjectResult, error) {
@@ -575,12 +573,13 @@ func (rs *s3ClientStorage) PutObject(ctx context.Context, bucketName storage.Buc
 		input.ChecksumSHA1 = checksumInput.ChecksumSHA1
 		input.ChecksumSHA256 = checksumInput.ChecksumSHA256
 	}
+	var expires *string
 	if opts != nil && opts.Metadata != nil {
 		input.CacheControl = opts.Metadata.CacheControl
 		input.ContentDisposition = opts.Metadata.ContentDisposition
 		input.ContentEncoding = opts.Metadata.ContentEncoding
 		input.ContentLanguage = opts.Metadata.ContentLanguage
-		input.Expires = parseExpires(opts.Metadata.Expires)
+		expires = opts.Metadata.Expires
 		input.WebsiteRedirectLocation = opts.Metadata.WebsiteRedirectLocation
 		input.Metadata = opts.Metadata.UserMetadata
 	}
@@ -594,7 +593,7 @@ func (rs *s3ClientStorage) PutObject(ctx context.Context, bucketName storage.Buc
 		}
 		input.Tagging = aws.String(values.Encode())
 	}
-	putObjectResult, err := rs.s3Client.PutObject(ctx, input)
+	putObjectResult, err := rs.s3Client.PutObject(ctx, input, withRawExpires(expires))
 	var notFoundError *types.NotFound
 	if err != nil && errors.As(err, &notFoundError) {
 		return nil, storage.ErrNoSuchBucket
@@ -673,6 +672,7 @@ func (rs *s3ClientStorage) CopyObject(ctx context.Context, srcBucket storage.Buc
 		Key:        aws.String(dstKey.String()),
 		CopySource: aws.String(copySourceValue(srcBucket, srcKey, nil)),
 	}
+	var expires *string
 	if opts != nil {
 		input.CopySource = aws.String(copySourceValue(srcBucket, srcKey, opts.SourceVersionID))
 		// Ranged CopyObject is a pithos extension that AWS CopyObject cannot
@@ -689,7 +689,7 @@ func (rs *s3ClientStorage) CopyObject(ctx context.Context, srcBucket storage.Buc
 				input.ContentDisposition = opts.Metadata.ContentDisposition
 				input.ContentEncoding = opts.Metadata.ContentEncoding
 				input.ContentLanguage = opts.Metadata.ContentLanguage
-				input.Expires = parseExpires(opts.Metadata.Expires)
+				expires = opts.Metadata.Expires
 				input.Metadata = opts.Metadata.UserMetadata
 			}
 		}
@@ -716,7 +716,7 @@ func (rs *s3ClientStorage) CopyObject(ctx context.Context, srcBucket storage.Buc
 		input.CopySourceIfUnmodifiedSince = opts.CopySourceConditions.IfUnmodifiedSince
 	}
 
-	copyObjectResult, err := rs.s3Client.CopyObject(ctx, input)
+	copyObjectResult, err := rs.s3Client.CopyObject(ctx, input, withRawExpires(expires))
 	if err != nil {
 		return nil, translateS3CopyError(err)
 	}
@@ -866,19 +866,20 @@ func (rs *s3ClientStorage) CreateMultipartUpload(ctx context.Context, bucketName
 		ChecksumType: checksumTypeStr,
 		Tagging:      tagging,
 	}
+	var expires *string
 	if opts != nil && opts.Metadata != nil {
 		input.CacheControl = opts.Metadata.CacheControl
 		input.ContentDisposition = opts.Metadata.ContentDisposition
 		input.ContentEncoding = opts.Metadata.ContentEncoding
 		input.ContentLanguage = opts.Metadata.ContentLanguage
-		input.Expires = parseExpires(opts.Metadata.Expires)
+		expires = opts.Metadata.Expires
 		input.WebsiteRedirectLocation = opts.Metadata.WebsiteRedirectLocation
 		input.Metadata = opts.Metadata.UserMetadata
 	}
 	if opts != nil && opts.StorageClass != nil {
 		input.StorageClass = types.StorageClass(*opts.StorageClass)
 	}
-	initiateMultipartUploadResult, err := rs.s3Client.CreateMultipartUpload(ctx, input)
+	initiateMultipartUploadResult, err := rs.s3Client.CreateMultipartUpload(ctx, input, withRawExpires(expires))
 	var notFoundError *types.NotFound
 	if err != nil && errors.As(err, &notFoundError) {
 		return nil, storage.ErrNoSuchBucket
